@@ -205,6 +205,10 @@ func runC04(r *Run, replay *Case) {
 		if replay.Input["nest"] != nil {
 			return
 		}
+		if replay.Input["loopedelse"] != nil {
+			c04LoopedElse(r)
+			return
+		}
 		for _, cl := range colls {
 			for _, f := range forms {
 				if cl.name == replay.Input["coll"] && f.name == replay.Input["form"] {
@@ -238,6 +242,7 @@ func runC04(r *Run, replay *Case) {
 			}
 		}
 	}
+	c04LoopedElse(r)
 	// nested loops with shadowing: the outer loop variable (and index) shadow keys of the root data and are read INSIDE the inner loop, one
 	// scope further in; the inner loop shadows the outer one in turn; after both loops the root values are back
 	for _, root := range []string{"map", "struct"} {
